@@ -1673,7 +1673,9 @@ namespace bloch::runtime {
         bool prevStatic = m_inStaticContext;
         bool prevCtor = m_inConstructor;
         bool prevDtor = m_inDestructor;
-        m_currentClassCtx = staticDispatchClass ? staticDispatchClass : method->owner;
+        // Names in a method body (fields, bare method calls, 'super') are resolved relative to
+        // the class in which the method is written, not the class it was dispatched through.
+        m_currentClassCtx = method->owner ? method->owner : staticDispatchClass;
         m_inStaticContext = method->isStatic;
         m_inConstructor = false;
         m_inDestructor = false;
@@ -2964,6 +2966,12 @@ namespace bloch::runtime {
                                 ErrorCategory::Runtime, callExpr->line, callExpr->column,
                                 "instance method '" + name + "' requires an object receiver");
                         }
+                        // An unqualified call is a call on 'this': dispatch virtually.
+                        if (method->isVirtual && receiver->cls) {
+                            auto vit = receiver->cls->vtable.find(method->signature);
+                            if (vit != receiver->cls->vtable.end())
+                                method = vit->second;
+                        }
                     }
                     return callMethod(method, staticCls, receiver, args);
                 }
@@ -2998,6 +3006,9 @@ namespace bloch::runtime {
                 } else if (target.type == Value::Type::ClassRef && target.classRef) {
                     staticCls = target.classRef;
                     method = findMethod(staticCls, member->member, &args);
+                    // super.m(): the base version runs on the current object.
+                    if (viaSuper && method && !method->isStatic)
+                        receiver = currentThisObject();
                 } else if (target.type == Value::Type::ClassRef && !target.classRef &&
                            !target.className.empty()) {
                     // Static call on a generic template (e.g., List.of(x)) — attempt to
